@@ -60,6 +60,8 @@ impl Validator {
                     .then_some(k.clone())
             }))
             .collect::<Vec<String>>();
+        // An instance of a parameterized type is built from the linked template: templates go first (keys are popped)
+        keys.sort_by_key(|k| self.tlds.get(k).is_some_and(|t| t.is_parameterized()));
         let mut visited_headers = HashSet::<String>::new();
         // DEFAULT values and value assignments are linked against the types they refer to, so the
         // references in the constraints of *all* definitions are resolved first
